@@ -51,6 +51,24 @@ certificates `mkCert`/`mkOrd` of C06) and are needed only to drop the "the VM ru
 `compile_correct_pk_partial` needs none of them.
 
 All theorems carry the suffix `_partial` because of `maxOK` (and, where stated, `ProgOK`).
+
+## Theorems
+
+* `compiled_tree` — the side conditions are consequences (`Compiled re prog re'`).
+* `compile_correct_pk_partial` — PikeVM attempt = IR first match, for every `Fine` run (kept: `maxOK`).
+* `compile_correct_pk_safe_partial` — … for every run that does not run out of fuel (kept: `maxOK`,
+  `C06.wfProgFull prog`).
+* `compile_correct_pk_total_partial` — … for every budget `≥ Pk.lookBound` (kept: `maxOK`, `ProgPkOK prog`).
+* `compile_correct_bt_partial` — the same for the backtracker (kept: `maxOK`, `ProgOK prog`).
+* `prefilter_sound_emitted_partial` — `Closure.StartPredSound` for compiled programs, every budget.
+* `prefilter_transparent_emitted_partial` — C04 end to end: prefiltered search = plain scan = unfold.
+* `findIter_spec_partial` — the running search `findIter` = unfold of first matches of the IR semantics
+  (additionally kept: `Sim.simpleProg prog` from `Closure.FindHyp`, and `isAnchored prog = false`).
+
+`no_opt` is a flag in `fl`: every theorem covers both pipelines (`compiled_tree` distinguishes them).
+The `unicode` hypothesis is `prog.flags.unicode = inp.unicode` (`Utf8Input::new(text,
+self.cr.flags.unicode)`).  NB `C07.POut` alone does not imply `rootOK` (it says nothing about `Goal` or
+back-reference indices); `rootOK` is derived from `parse … = .ok re` itself (`E2E.parse_shape`).
 -/
 namespace Regress.EndToEnd
 
@@ -69,6 +87,8 @@ side condition of the keystone lemma, and with the IR semantics of `re`. -/
 structure Compiled (re : Regex) (prog : Prog) (re' : Regex) : Prop where
   emit : VM.emit re' = .ok prog
   flags : re'.flags = re.flags
+  /-- the flags stored in the program (`Utf8Input::new(text, self.cr.flags.unicode)` reads them) -/
+  pflags : prog.flags.unicode = re.flags.unicode
   wf : WF re.node
   wf' : WF re'.node
   root : rootOK re'.node = true
@@ -79,6 +99,15 @@ structure Compiled (re : Regex) (prog : Prog) (re' : Regex) : Prop where
 
 /-- **The side conditions are consequences** of `parse … = .ok re`, `compile … = .ok prog` and
 `maxOK re.node`. -/
+theorem emit_flags {r : Regex} {prog : Prog} (he : VM.emit r = .ok prog) :
+    prog.flags.unicode = r.flags.unicode := by
+  unfold VM.emit emitWith at he
+  split at he
+  · cases he
+  · split at he
+    · cases he
+    · cases he; rfl
+
 theorem compiled_tree {pat : List Nat} {fl : IR.Flags} {re : Regex} {prog : Prog} {ofuel : Nat}
     (hb : ∀ c ∈ pat, c ≤ 0x10FFFF) (hp : parse pat fl = .ok re) (hc : compile ofuel pat fl = .ok prog)
     (hmax : maxOK re.node = true) : ∃ re', Compiled re prog re' := by
@@ -95,7 +124,7 @@ theorem compiled_tree {pat : List Nat} {fl : IR.Flags} {re : Regex} {prog : Prog
     · cases hc
     · rename_i p he
       cases hc
-      exact ⟨re, he, rfl, hin.1, hin.1, hroot hmax, hgroups, hloops, fun _ _ _ => rfl⟩
+      exact ⟨re, he, rfl, emit_flags he, hin.1, hin.1, hroot hmax, hgroups, hloops, fun _ _ _ => rfl⟩
   | false =>
     simp only [hno, Bool.not_false, if_true] at hc
     split at hc
@@ -107,7 +136,7 @@ theorem compiled_tree {pat : List Nat} {fl : IR.Flags} {re : Regex} {prog : Prog
         cases hc
         have hout := optimize_out hin (POut_sets ho) hopt
         have hside := optimize_side hin hopt
-        exact ⟨re', he, hout.2.2, hin.1, hout.1.1.1, hside.2.1 (hroot hmax), by rw [hout.2.1]; exact hgroups,
+        exact ⟨re', he, hout.2.2, by rw [emit_flags he, hout.2.2], hin.1, hout.1.1.1, hside.2.1 (hroot hmax), by rw [hout.2.1]; exact hgroups,
           Nat.le_trans hside.2.2.1 hloops, fun ht _ hbd => C03.optimize_same_attempt ht hopt hin.1 hbd⟩
 
 /-! ## 2. The PikeVM -/
@@ -122,18 +151,19 @@ def PkAgrees (o : Pk.Outcome) (m : Option St) : Prop :=
 /-- **`compile_correct_pk`** (kept: `maxOK`; proviso: the run is `Fine`).
 For every pattern `pat` of code points `≤ 0x10FFFF` and all flags `fl` (with or without `no_opt`), if
 `parse pat fl = .ok re` and `compile ofuel pat fl = .ok prog` (any optimizer fuel for which the model
-of `optimize` returns), then for every UTF-8 text `inp` (with the regex's `unicode` flag), every char
+of `optimize` returns), then for every UTF-8 text `inp` (created with the compiled regex's `unicode` flag, as `Utf8Input::new(text,
+self.cr.flags.unicode)` does), every char
 boundary `p` and every tick budget `fuel` for which the PikeVM attempt ends neither `.outOfFuel` nor
 in an `.error`: the attempt fails iff `IR.firstMatch inp re.node p = none`, and otherwise matches with
 the end position and the captures of that first match. -/
 theorem compile_correct_pk_partial {pat : List Nat} {fl : IR.Flags} {re : Regex} {prog : Prog} {ofuel : Nat}
     (hb : ∀ c ∈ pat, c ≤ 0x10FFFF) (hp : parse pat fl = .ok re) (hc : compile ofuel pat fl = .ok prog)
     (hmax : maxOK re.node = true)
-    {inp : Input} {cs : List Nat} (ht : Utf8Text inp cs) (hu : re.flags.unicode = inp.unicode)
+    {inp : Input} {cs : List Nat} (ht : Utf8Text inp cs) (hu : prog.flags.unicode = inp.unicode)
     {p : Nat} (hbd : AtBoundary cs p) (fuel : Nat) (hf : Fine (Pk.attempt prog inp fuel p)) :
     PkAgrees (Pk.attempt prog inp fuel p) (firstMatch inp re.node p) := by
   obtain ⟨re', C⟩ := compiled_tree hb hp hc hmax
-  have := keystone_attempt C.emit (by rw [C.flags]; exact hu) C.root C.wf'
+  have := keystone_attempt C.emit (by rw [C.flags, ← C.pflags]; exact hu) C.root C.wf'
     (by have := C.groups; omega) (by have := C.loops; omega) ht hbd fuel hf
   rw [C.sem ht hbd] at this
   unfold PkAgrees
@@ -167,13 +197,32 @@ theorem pk_fine {prog : Prog} (hok : ProgPkOK prog = true) {inp : Input} {cs : L
   | outOfFuel => exact hterm.elim
   | error e => exact absurd rfl (herr e)
 
+/-- **`compile_correct_pk`, the only proviso being the tick budget** (kept: `maxOK`, `C06.wfProgFull
+prog`): with C06 an `.error` is impossible, so the conclusion holds for every budget for which the
+PikeVM attempt does not run out of fuel. -/
+theorem compile_correct_pk_safe_partial {pat : List Nat} {fl : IR.Flags} {re : Regex} {prog : Prog}
+    {ofuel : Nat} (hb : ∀ c ∈ pat, c ≤ 0x10FFFF) (hp : parse pat fl = .ok re)
+    (hc : compile ofuel pat fl = .ok prog) (hmax : maxOK re.node = true)
+    (hfull : C06.wfProgFull prog = true)
+    {inp : Input} {cs : List Nat} (ht : Utf8Text inp cs) (hu : prog.flags.unicode = inp.unicode)
+    {p : Nat} (hbd : AtBoundary cs p) (fuel : Nat) (hfuel : Pk.attempt prog inp fuel p ≠ .outOfFuel) :
+    PkAgrees (Pk.attempt prog inp fuel p) (firstMatch inp re.node p) := by
+  refine compile_correct_pk_partial hb hp hc hmax ht hu hbd fuel ?_
+  have herr := C02Full.pk_attempt_no_error hfull (validAt ht hbd) fuel
+  generalize Pk.attempt prog inp fuel p = o at hfuel herr
+  cases o with
+  | matched _ _ _ _ => trivial
+  | failed _ _ => trivial
+  | outOfFuel => exact absurd rfl hfuel
+  | error e => exact absurd rfl (herr e)
+
 /-- **`compile_correct_pk`, no proviso** (kept: `maxOK`, `ProgPkOK prog`).  For programs passing the
 structural checks of C05Full/C06, every budget `fuel ≥ Pk.lookBound prog |haystack|` gives exactly the
 answer of the IR semantics of the parsed tree. -/
 theorem compile_correct_pk_total_partial {pat : List Nat} {fl : IR.Flags} {re : Regex} {prog : Prog}
     {ofuel : Nat} (hb : ∀ c ∈ pat, c ≤ 0x10FFFF) (hp : parse pat fl = .ok re)
     (hc : compile ofuel pat fl = .ok prog) (hmax : maxOK re.node = true) (hok : ProgPkOK prog = true)
-    {inp : Input} {cs : List Nat} (ht : Utf8Text inp cs) (hu : re.flags.unicode = inp.unicode)
+    {inp : Input} {cs : List Nat} (ht : Utf8Text inp cs) (hu : prog.flags.unicode = inp.unicode)
     {p : Nat} (hbd : AtBoundary cs p) (fuel : Nat) (hfuel : Pk.lookBound prog inp.len ≤ fuel) :
     PkAgrees (Pk.attempt prog inp fuel p) (firstMatch inp re.node p) :=
   compile_correct_pk_partial hb hp hc hmax ht hu hbd fuel (pk_fine hok ht hbd fuel hfuel)
@@ -194,7 +243,7 @@ the same end and the same capture ranges. -/
 theorem compile_correct_bt_partial {pat : List Nat} {fl : IR.Flags} {re : Regex} {prog : Prog}
     {ofuel : Nat} (hb : ∀ c ∈ pat, c ≤ 0x10FFFF) (hp : parse pat fl = .ok re)
     (hc : compile ofuel pat fl = .ok prog) (hmax : maxOK re.node = true) (hok : ProgOK prog = true)
-    {inp : Input} {cs : List Nat} (ht : Utf8Text inp cs) (hu : re.flags.unicode = inp.unicode)
+    {inp : Input} {cs : List Nat} (ht : Utf8Text inp cs) (hu : prog.flags.unicode = inp.unicode)
     {p : Nat} (hbd : AtBoundary cs p) (fuel : Nat) (hfuel : Pk.lookBound prog inp.len ≤ fuel) :
     BtAgrees (Bt.attempt prog inp fuel p) (firstMatch inp re.node p) := by
   simp only [ProgOK, Bool.and_eq_true] at hok
@@ -245,9 +294,9 @@ variable {pat : List Nat} {fl : IR.Flags} {re : Regex} {prog : Prog} {ofuel : Na
 
 /-- A successful backtracker attempt — with ANY budget — at a char boundary is a first match of the IR
 semantics. -/
-theorem bt_match_is_ir_match (hb : ∀ c ∈ pat, c ≤ 0x10FFFF) (hp : parse pat fl = .ok re)
+theorem bt_match_is_ir_match_partial (hb : ∀ c ∈ pat, c ≤ 0x10FFFF) (hp : parse pat fl = .ok re)
     (hc : compile ofuel pat fl = .ok prog) (hmax : maxOK re.node = true) (hok : ProgOK prog = true)
-    (ht : Utf8Text inp cs) (hu : re.flags.unicode = inp.unicode) {p : Nat} (hbd : AtBoundary cs p)
+    (ht : Utf8Text inp cs) (hu : prog.flags.unicode = inp.unicode) {p : Nat} (hbd : AtBoundary cs p)
     (fuel : Nat) (hm : (searchEnvBt prog inp fuel).attempt p ≠ none) : firstMatch inp re.node p ≠ none := by
   intro hnone
   have hne : Bt.attempt prog inp fuel p ≠ .outOfFuel := by
@@ -265,12 +314,12 @@ attempt can only succeed at a char boundary whose following bytes the start pred
 `VM ⟹ IR` + C04Sem `predicate_for_re_sound` on the emitted tree + C03.) -/
 theorem prefilter_sound_emitted_partial (hb : ∀ c ∈ pat, c ≤ 0x10FFFF) (hp : parse pat fl = .ok re)
     (hc : compile ofuel pat fl = .ok prog) (hmax : maxOK re.node = true) (hok : ProgOK prog = true)
-    (ht : Utf8Text inp cs) (hu : re.flags.unicode = inp.unicode) (fuel : Nat) :
+    (ht : Utf8Text inp cs) (hu : prog.flags.unicode = inp.unicode) (fuel : Nat) :
     StartPredSound prog.startPred inp (searchEnvBt prog inp fuel) := by
   intro r hr hne
   obtain ⟨re', C⟩ := compiled_tree hb hp hc hmax
   have hbd := atBoundary_of_vutf8 ht hr
-  have hm := bt_match_is_ir_match hb hp hc hmax hok ht hu hbd fuel hne
+  have hm := bt_match_is_ir_match_partial hb hp hc hmax hok ht hu hbd fuel hne
   rw [← C.sem ht hbd] at hm
   exact (C04Sem.predicate_for_re_sound ht re' C.wf' (emit_startPred C.emit) hbd hm).2
 
@@ -278,7 +327,7 @@ theorem progOK_full (hok : ProgOK prog = true) : C06.wfProgFull prog = true := b
   simp only [ProgOK, ProgPkOK, Bool.and_eq_true] at hok; exact hok.1.1.1
 
 /-- The start predicate of a compiled program only mentions UTF-8 sequence-start bytes. -/
-theorem leads_emitted (hb : ∀ c ∈ pat, c ≤ 0x10FFFF) (hp : parse pat fl = .ok re)
+theorem leads_emitted_partial (hb : ∀ c ∈ pat, c ≤ 0x10FFFF) (hp : parse pat fl = .ok re)
     (hc : compile ofuel pat fl = .ok prog) (hmax : maxOK re.node = true) : IR.LeadsSP prog.startPred := by
   obtain ⟨re', C⟩ := compiled_tree hb hp hc hmax
   exact C04Sem.start_pred_lead_bytes re' C.wf' (emit_startPred C.emit)
@@ -290,12 +339,12 @@ the char boundaries, and from every char boundary `next_match_with_prefix_search
 plain scan (`find_bytes = Some`) returns: same match, same captures, same `next_start`. -/
 theorem prefilter_transparent_emitted_partial (hb : ∀ c ∈ pat, c ≤ 0x10FFFF) (hp : parse pat fl = .ok re)
     (hc : compile ofuel pat fl = .ok prog) (hmax : maxOK re.node = true) (hok : ProgOK prog = true)
-    (ht : Utf8Text inp cs) (hu : re.flags.unicode = inp.unicode) (fuel : Nat) {start : Nat}
+    (ht : Utf8Text inp cs) (hu : prog.flags.unicode = inp.unicode) (fuel : Nat) {start : Nat}
     (hs : Safety.VUtf8 inp start ∨ inp.len < start) :
     collectK (searchEnvBt prog inp fuel) .btPrefix start = unfoldIter (searchEnvBt prog inp fuel) start ∧
     ∀ p, Safety.VUtf8 inp p → nextMatchPrefix (searchEnvBt prog inp fuel) p =
       nextMatchPrefix { searchEnvBt prog inp fuel with findBytes := some } p :=
-  iter_is_unfold_bt (progOK_full hok) (leads_emitted hb hp hc hmax) ⟨ht.kind, ht.bytes, ht.scalar⟩ fuel
+  iter_is_unfold_bt (progOK_full hok) (leads_emitted_partial hb hp hc hmax) ⟨ht.kind, ht.bytes, ht.scalar⟩ fuel
     (prefilter_sound_emitted_partial hb hp hc hmax hok ht hu fuel) hs
 
 /-- The search environment of the specification: the attempts are the first matches of the IR
@@ -310,9 +359,9 @@ def specEnv (inp : Input) (n : Node) (prog : Prog) : SearchEnv :=
 
 /-- With a budget of at least `Pk.lookBound` per attempt, the backtracker's attempt at a char boundary
 is the attempt of the specification. -/
-theorem attempt_eq_spec (hb : ∀ c ∈ pat, c ≤ 0x10FFFF) (hp : parse pat fl = .ok re)
+theorem attempt_eq_spec_partial (hb : ∀ c ∈ pat, c ≤ 0x10FFFF) (hp : parse pat fl = .ok re)
     (hc : compile ofuel pat fl = .ok prog) (hmax : maxOK re.node = true) (hok : ProgOK prog = true)
-    (ht : Utf8Text inp cs) (hu : re.flags.unicode = inp.unicode) (fuel : Nat)
+    (ht : Utf8Text inp cs) (hu : prog.flags.unicode = inp.unicode) (fuel : Nat)
     (hfuel : Pk.lookBound prog inp.len ≤ fuel) {p : Nat} (hv : Safety.VUtf8 inp p) :
     (searchEnvBt prog inp fuel).attempt p = (specEnv inp re.node prog).attempt p := by
   have hB := compile_correct_bt_partial hb hp hc hmax hok ht hu (atBoundary_of_vutf8 ht hv) fuel hfuel
@@ -326,9 +375,9 @@ theorem attempt_eq_spec (hb : ∀ c ∈ pat, c ≤ 0x10FFFF) (hp : parse pat fl 
     obtain ⟨st, steps, peak, h, hcaps⟩ := hB
     rw [h, heq]; simp only [Option.map_some, hcaps]
 
-theorem restrict_eq_spec (hb : ∀ c ∈ pat, c ≤ 0x10FFFF) (hp : parse pat fl = .ok re)
+theorem restrict_eq_spec_partial (hb : ∀ c ∈ pat, c ≤ 0x10FFFF) (hp : parse pat fl = .ok re)
     (hc : compile ofuel pat fl = .ok prog) (hmax : maxOK re.node = true) (hok : ProgOK prog = true)
-    (ht : Utf8Text inp cs) (hu : re.flags.unicode = inp.unicode) (fuel : Nat)
+    (ht : Utf8Text inp cs) (hu : prog.flags.unicode = inp.unicode) (fuel : Nat)
     (hfuel : Pk.lookBound prog inp.len ≤ fuel) :
     restrictEnv (vb inp) (searchEnvBt prog inp fuel) = restrictEnv (vb inp) (specEnv inp re.node prog) := by
   have : (fun p => if vb inp p = true then (searchEnvBt prog inp fuel).attempt p else none) =
@@ -336,23 +385,23 @@ theorem restrict_eq_spec (hb : ∀ c ∈ pat, c ≤ 0x10FFFF) (hp : parse pat fl
     funext p
     by_cases hv : vb inp p = true
     · rw [if_pos hv, if_pos hv]
-      exact attempt_eq_spec hb hp hc hmax hok ht hu fuel hfuel (vb_iff.mp hv)
+      exact attempt_eq_spec_partial hb hp hc hmax hok ht hu fuel hfuel (vb_iff.mp hv)
     · rw [if_neg hv, if_neg hv]
   unfold restrictEnv
   rw [this]
   rfl
 
 /-- The specification environment is well-behaved on char boundaries. -/
-theorem envOKOn_spec (hb : ∀ c ∈ pat, c ≤ 0x10FFFF) (hp : parse pat fl = .ok re)
+theorem envOKOn_spec_partial (hb : ∀ c ∈ pat, c ≤ 0x10FFFF) (hp : parse pat fl = .ok re)
     (hc : compile ofuel pat fl = .ok prog) (hmax : maxOK re.node = true) (hok : ProgOK prog = true)
-    (ht : Utf8Text inp cs) (hu : re.flags.unicode = inp.unicode) :
+    (ht : Utf8Text inp cs) (hu : prog.flags.unicode = inp.unicode) :
     EnvOKOn (vb inp) (specEnv inp re.node prog) := by
-  have hOn := envOKOn_bt (progOK_full hok) (leads_emitted hb hp hc hmax) ⟨ht.kind, ht.bytes, ht.scalar⟩
+  have hOn := envOKOn_bt (progOK_full hok) (leads_emitted_partial hb hp hc hmax) ⟨ht.kind, ht.bytes, ht.scalar⟩
     (Pk.lookBound prog inp.len)
   exact
     { v_le := hOn.v_le
       attempt_range := fun p e c hv ha => hOn.attempt_range p e c hv (by
-        rw [attempt_eq_spec hb hp hc hmax hok ht hu _ (Nat.le_refl _) (vb_iff.mp hv)]; exact ha)
+        rw [attempt_eq_spec_partial hb hp hc hmax hok ht hu _ (Nat.le_refl _) (vb_iff.mp hv)]; exact ha)
       next_gt := hOn.next_gt
       find_range := hOn.find_range }
 
@@ -367,13 +416,13 @@ empty match). -/
 theorem findIter_spec_partial (hb : ∀ c ∈ pat, c ≤ 0x10FFFF) (hp : parse pat fl = .ok re)
     (hc : compile ofuel pat fl = .ok prog) (hmax : maxOK re.node = true) (hok : ProgOK prog = true)
     (hsimple : Sim.simpleProg prog = true) (hna : isAnchored prog = false)
-    (ht : Utf8Text inp cs) (hu : re.flags.unicode = inp.unicode) (fuel : Nat)
+    (ht : Utf8Text inp cs) (hu : prog.flags.unicode = inp.unicode) (fuel : Nat)
     (hfuel : Pk.lookBound prog inp.len ≤ fuel) {start : Nat}
     (hs : Safety.VUtf8 inp start ∨ inp.len < start) {ms : List MatchR}
     (h : findIter .bt prog inp start fuel = .ok ms) :
     ms = unfoldIter (specEnv inp re.node prog) start := by
   have hfull := progOK_full hok
-  have hleads := leads_emitted hb hp hc hmax
+  have hleads := leads_emitted_partial hb hp hc hmax
   have ht' : Safety.Utf8Text inp cs := ⟨ht.kind, ht.bytes, ht.scalar⟩
   have hok' := hok
   simp only [ProgOK, Bool.and_eq_true] at hok'
@@ -384,17 +433,173 @@ theorem findIter_spec_partial (hb : ∀ c ∈ pat, c ≤ 0x10FFFF) (hp : parse p
   rw [findIter_eq_collectK H fuel hs h, hk,
     (prefilter_transparent_emitted_partial hb hp hc hmax hok ht hu fuel hs).1,
     ← unfoldIter_restrict (envOKOn_bt hfull hleads ht' fuel) hs',
-    restrict_eq_spec hb hp hc hmax hok ht hu fuel hfuel,
-    unfoldIter_restrict (envOKOn_spec hb hp hc hmax hok ht hu) hs']
+    restrict_eq_spec_partial hb hp hc hmax hok ht hu fuel hfuel,
+    unfoldIter_restrict (envOKOn_spec_partial hb hp hc hmax hok ht hu) hs']
 
 end Search
+
+/-! ## 5. Non-vacuity: real compiled patterns -/
+
+section Examples
+open Regress.Api Regress.Closure Regress.C09
+
+/-- `/(?:(a|[bc]){2,3}|x+?(?=y))d/`: a general loop with a capture group (reset per iteration), a
+bracket, a lazy `Loop1CharBody`, a look-ahead; start predicate `Set {a, b, c, x}`. -/
+def eePat : List Nat := pat! "(?:(a|[bc]){2,3}|x+?(?=y))d"
+def eeRe : Regex := match parse eePat {} with | .ok r => r | .error _ => ⟨.empty, {}⟩
+def eeProg : Prog :=
+  { insns := #[.alt 11, .enterLoop 0 2 (some 3) true 10, .resetCaptureGroup 0, .beginCaptureGroup 0, .alt 7,
+      .byteSeq [0x61], .jump 8, .byteSet [0x62, 0x63], .endCaptureGroup 0, .loopAgain 1, .jump 17, .byteSeq [0x78],
+      .loop1 0 none false, .byteSeq [0x78], .lookahead false 1 1 17, .byteSeq [0x79], .goal, .byteSeq [0x64], .goal],
+    brackets := #[], loops := 1, groups := 1, flags := {}, names := [], startPred := .set [0x61, 0x62, 0x63, 0x78] }
+/-- "éabcd" -/
+def eeInp : Input := { kind := .utf8, bytes := Utf8.text [0xE9, 0x61, 0x62, 0x63, 0x64], unicode := false }
+
+theorem eeBnd : ∀ c ∈ eePat, c ≤ 0x10FFFF := by decide
+theorem eeParse : parse eePat {} = .ok eeRe := by
+  have h : (match parse eePat {} with | .ok _ => true | .error _ => false) = true := by decide +kernel
+  unfold eeRe
+  split
+  · rename_i heq; rw [heq]
+  · rename_i heq; rw [heq] at h; cases h
+theorem eeCompile : compile (compileFuel eePat {}) eePat {} = .ok eeProg := by
+  have h : (match compile (compileFuel eePat {}) eePat {} with
+      | .ok p => decide (p = eeProg) | .error _ => false) = true := by decide +kernel
+  cases he : compile (compileFuel eePat {}) eePat {} with
+  | error e => rw [he] at h; cases h
+  | ok p => rw [he] at h; simp at h; rw [h]
+theorem eeMax : maxOK eeRe.node = true := by decide +kernel
+theorem eeOK : ProgOK eeProg = true := by decide +kernel
+theorem eeUni : eeProg.flags.unicode = eeInp.unicode := rfl
+attribute [irreducible] eeRe
+theorem eeText : Utf8Text eeInp [0xE9, 0x61, 0x62, 0x63, 0x64] := ⟨rfl, rfl, by decide⟩
+theorem eeBoundary : AtBoundary [0xE9, 0x61, 0x62, 0x63, 0x64] 2 := ⟨1, by decide, by decide⟩
+
+example (fuel : Nat) (hf : Fine (Pk.attempt eeProg eeInp fuel 2)) :
+    PkAgrees (Pk.attempt eeProg eeInp fuel 2) (firstMatch eeInp eeRe.node 2) :=
+  compile_correct_pk_partial eeBnd eeParse eeCompile eeMax eeText eeUni eeBoundary fuel hf
+
+example (fuel : Nat) (hfuel : Pk.attempt eeProg eeInp fuel 2 ≠ .outOfFuel) :
+    PkAgrees (Pk.attempt eeProg eeInp fuel 2) (firstMatch eeInp eeRe.node 2) :=
+  compile_correct_pk_safe_partial eeBnd eeParse eeCompile eeMax
+    (by have := eeOK; simp only [ProgOK, ProgPkOK, Bool.and_eq_true] at this; exact this.1.1.1) eeText eeUni
+    eeBoundary fuel hfuel
+
+example (fuel : Nat) (hfuel : Pk.lookBound eeProg eeInp.len ≤ fuel) :
+    PkAgrees (Pk.attempt eeProg eeInp fuel 2) (firstMatch eeInp eeRe.node 2) :=
+  compile_correct_pk_total_partial eeBnd eeParse eeCompile eeMax
+    (by have := eeOK; simp only [ProgOK, Bool.and_eq_true] at this; exact this.1.1) eeText eeUni eeBoundary fuel hfuel
+
+example (fuel : Nat) (hfuel : Pk.lookBound eeProg eeInp.len ≤ fuel) :
+    BtAgrees (Bt.attempt eeProg eeInp fuel 2) (firstMatch eeInp eeRe.node 2) :=
+  compile_correct_bt_partial eeBnd eeParse eeCompile eeMax eeOK eeText eeUni eeBoundary fuel hfuel
+
+example (fuel : Nat) : StartPredSound eeProg.startPred eeInp (searchEnvBt eeProg eeInp fuel) :=
+  prefilter_sound_emitted_partial eeBnd eeParse eeCompile eeMax eeOK eeText eeUni fuel
+
+example (fuel : Nat) :
+    collectK (searchEnvBt eeProg eeInp fuel) .btPrefix 0 = unfoldIter (searchEnvBt eeProg eeInp fuel) 0 :=
+  (prefilter_transparent_emitted_partial eeBnd eeParse eeCompile eeMax eeOK eeText eeUni fuel
+    (Or.inl (by decide +kernel))).1
+
+/-- What the three sides actually compute here: the match `2..6` with group 1 = `4..5`. -/
+example : (firstMatch eeInp eeRe.node 2).map (fun σ => (σ.pos, σ.caps)) = some (6, [(some 4, some 5)]) := by
+  decide +kernel
+example : (match Bt.attempt eeProg eeInp 1000 2 with
+    | .matched e st _ _ => some (e, Bt.capsOf st) | _ => none) = some (6, [some (4, 5)]) := by decide +kernel
+example : (match Pk.attempt eeProg eeInp 1000 2 with
+    | .matched e st _ _ => some (e, capsOfState st) | _ => none) = some (6, [(some 4, some 5)]) := by
+  decide +kernel
+
+/-- `/(?:ab|c)+d/`: no `Loop1CharBody`, start predicate `Set {a, c}`, not anchored: `findIter_spec_partial`
+applies. -/
+def eePatB : List Nat := pat! "(?:ab|c)+d"
+def eeReB : Regex := match parse eePatB {} with | .ok r => r | .error _ => ⟨.empty, {}⟩
+def eeProgB : Prog :=
+  { insns := #[.alt 3, .byteSeq [0x61, 0x62], .jump 4, .byteSeq [0x63], .enterLoop 0 0 none true 10, .alt 8,
+      .byteSeq [0x61, 0x62], .jump 9, .byteSeq [0x63], .loopAgain 4, .byteSeq [0x64], .goal],
+    brackets := #[], loops := 1, groups := 0, flags := {}, names := [], startPred := .set [0x61, 0x63] }
+/-- "abcdédc cd" -/
+def eeInpB : Input :=
+  { kind := .utf8, bytes := Utf8.text [0x61, 0x62, 0x63, 0x64, 0xE9, 0x64, 0x63, 0x20, 0x63, 0x64], unicode := false }
+
+theorem eeBndB : ∀ c ∈ eePatB, c ≤ 0x10FFFF := by decide
+theorem eeParseB : parse eePatB {} = .ok eeReB := by
+  have h : (match parse eePatB {} with | .ok _ => true | .error _ => false) = true := by decide +kernel
+  unfold eeReB
+  split
+  · rename_i heq; rw [heq]
+  · rename_i heq; rw [heq] at h; cases h
+theorem eeCompileB : compile (compileFuel eePatB {}) eePatB {} = .ok eeProgB := by
+  have h : (match compile (compileFuel eePatB {}) eePatB {} with
+      | .ok p => decide (p = eeProgB) | .error _ => false) = true := by decide +kernel
+  cases he : compile (compileFuel eePatB {}) eePatB {} with
+  | error e => rw [he] at h; cases h
+  | ok p => rw [he] at h; simp at h; rw [h]
+theorem eeTextB : Utf8Text eeInpB [0x61, 0x62, 0x63, 0x64, 0xE9, 0x64, 0x63, 0x20, 0x63, 0x64] :=
+  ⟨rfl, rfl, by decide⟩
+
+attribute [irreducible] eeReB
+
+example : maxOK eeReB.node = true ∧ ProgOK eeProgB = true ∧ Sim.simpleProg eeProgB = true ∧
+    isAnchored eeProgB = false ∧ eeProgB.startPred = .set [0x61, 0x63] := by decide +kernel
+
+example (fuel : Nat) (hfuel : Pk.lookBound eeProgB eeInpB.len ≤ fuel) (ms : List MatchR)
+    (h : findIter .bt eeProgB eeInpB 0 fuel = .ok ms) : ms = unfoldIter (specEnv eeInpB eeReB.node eeProgB) 0 :=
+  findIter_spec_partial eeBndB eeParseB eeCompileB (by decide +kernel) (by decide +kernel) (by decide +kernel)
+    (by decide +kernel) eeTextB rfl fuel hfuel (Or.inl (by decide +kernel)) h
+
+/-- Both sides, evaluated (`0..4` "abcd" and `9..11` "cd"; the budget 1000 is far below the bound of
+the theorem and already suffices). -/
+example : (match findIter .bt eeProgB eeInpB 0 1000 with | .ok ms => some (ms.map (·.range)) | .error _ => none) =
+    some [(0, 4), (9, 11)] := by decide +kernel
+example : (unfoldIter (specEnv eeInpB eeReB.node eeProgB) 0).map (·.range) = [(0, 4), (9, 11)] := by
+  decide +kernel
+
+/-! ### The excluded patterns: a saturated loop maximum -/
+
+/-- `/a{0,18446744073709551615}/` parses to `Cat [Loop { min: 0, max: Some(usize::MAX) } 'a', Goal]`:
+`maxOK` and `rootOK` fail for the parser's output … -/
+theorem saturated_max_example :
+    (match parse (pat! "a{0,18446744073709551615}") {} with
+     | .ok ⟨.cat [.loop (.char 0x61) q 0 0, .goal], _⟩ =>
+       some (q.min, q.max, maxOK (.cat [.loop (.char 0x61) q 0 0, .goal]),
+         rootOK (.cat [.loop (.char 0x61) q 0 0, .goal]))
+     | _ => none) = some (0, some 18446744073709551615, false, false) := by decide +kernel
+
+/-- … as for every larger literal (`try_consume_decimal_integer_literal` saturates) … -/
+example :
+    (match parse (pat! "a{2,99999999999999999999}") {} with
+     | .ok ⟨.cat [.loop (.char 0x61) q 0 0, .goal], _⟩ => some (q.min, q.max)
+     | _ => none) = some (2, some 18446744073709551615) := by decide +kernel
+
+/-- … whereas `usize::MAX - 1` is an ordinary bounded loop … -/
+example :
+    (match parse (pat! "a{0,18446744073709551614}") {} with
+     | .ok r => some (maxOK r.node, rootOK r.node) | .error _ => none) = some (true, true) := by decide +kernel
+
+/-- … and the program compiled for the saturated pattern is, instruction for instruction, the
+program of `/a*/` (`emit` writes `max.unwrap_or(usize::MAX)`): the real engine (`rvharness probe ''
+'a{0,18446744073709551615}' 'aaa'`: `I loop1 0 inf 1`, matches `0..3` and `3..3`) treats it as an
+unbounded loop. -/
+example :
+    (match compile 100 (pat! "a{0,18446744073709551615}") {}, compile 100 (pat! "a*") {} with
+     | .ok p, .ok q => decide (p = q) && decide (p =
+         { insns := #[.loop1 0 none true, .byteSeq [0x61], .goal], brackets := #[], loops := 0, groups := 0,
+           flags := {}, names := [], startPred := .arbitrary })
+     | _, _ => false) = true := by decide +kernel
+
+end Examples
+
 
 end Regress.EndToEnd
 
 #print axioms Regress.EndToEnd.compiled_tree
 #print axioms Regress.EndToEnd.compile_correct_pk_partial
+#print axioms Regress.EndToEnd.compile_correct_pk_safe_partial
 #print axioms Regress.EndToEnd.compile_correct_pk_total_partial
 #print axioms Regress.EndToEnd.compile_correct_bt_partial
 #print axioms Regress.EndToEnd.prefilter_sound_emitted_partial
 #print axioms Regress.EndToEnd.prefilter_transparent_emitted_partial
 #print axioms Regress.EndToEnd.findIter_spec_partial
+#print axioms Regress.EndToEnd.saturated_max_example
